@@ -84,6 +84,52 @@ func parseBool(b byte) (bool, error) {
 	return b != 0, nil
 }
 
+// memberMatches reports whether an element with identifier tal can be the value of a SEQUENCE/SET
+// member of Go type t declared with parameters p: by context tag number when the member has one,
+// otherwise by the universal tag of its type.
+func memberMatches(p fieldParameters, t reflect.Type, tal tagAndLen) bool {
+	if p.tagNumber != nil {
+		return *p.tagNumber == tal.tagNumber
+	}
+	if tal.class != ClassUniversal {
+		return false
+	}
+	for t.Kind() == reflect.Ptr {
+		t = t.Elem()
+	}
+	switch t {
+	case BitStringType:
+		return tal.tagNumber == TagBitString
+	case OctetStringType:
+		return tal.tagNumber == TagOctetString
+	case ObjectIdentifierType:
+		return tal.tagNumber == TagOID
+	case EnumeratedType:
+		return tal.tagNumber == TagEnumerated
+	case NullType:
+		return tal.tagNumber == TagNull
+	}
+	switch t.Kind() {
+	case reflect.Bool:
+		return tal.tagNumber == TagBoolean
+	case reflect.Int, reflect.Int32, reflect.Int64:
+		return tal.tagNumber == TagInteger
+	case reflect.String:
+		return tal.tagNumber == TagUTF8String || tal.tagNumber == TagIA5String || tal.tagNumber == TagGraphicString
+	case reflect.Slice:
+		return tal.tagNumber == TagSequence || tal.tagNumber == TagSet
+	case reflect.Struct:
+		if t.NumField() > 0 && (t.Field(0).Name == "Value" || t.Field(0).Name == "List") {
+			return memberMatches(p, t.Field(0).Type, tal)
+		}
+		if t.NumField() > 0 && t.Field(0).Name == "Present" {
+			return false // an untagged CHOICE member is identified by its alternatives' context tags
+		}
+		return tal.tagNumber == TagSequence || tal.tagNumber == TagSet
+	}
+	return false
+}
+
 // ParseField is the main parsing function. Given a byte slice containing type value,
 // it will try to parse a suitable ASN.1 value out and store it
 // in the given Value. TODO : ObjectIdenfier
@@ -239,7 +285,7 @@ func ParseField(v reflect.Value, bytes []byte, params fieldParameters) error {
 					if params.openType {
 						return fmt.Errorf("OpenType is not implemented")
 					}
-					if *structParams[current].tagNumber == talNow.tagNumber {
+					if memberMatches(structParams[current], structType.Field(current).Type, talNow) {
 						if err = ParseField(val.Field(current), bytes[offset:next], structParams[current]); err != nil {
 							return err
 						}
@@ -269,7 +315,7 @@ func ParseField(v reflect.Value, bytes []byte, params fieldParameters) error {
 					if params.openType {
 						return fmt.Errorf("OpenType is not implemented")
 					}
-					if *structParams[current].tagNumber == talNow.tagNumber {
+					if memberMatches(structParams[current], structType.Field(current).Type, talNow) {
 						if parse_err1 := ParseField(val.Field(current), bytes[offset:next], structParams[current]); parse_err1 != nil {
 							return parse_err1
 						}
